@@ -47,8 +47,9 @@ Inductive iomode := Mono | Threaded (n : nat).
 Record wrep := mkWR { wr_due : option nat; wr_eio : nat; wr_err : nat }.
 
 Definition eff_lag (n lag : nat) : nat := Nat.max 1 (Nat.min lag (n - 1)).
-Definition report_due (m : iomode) (lag : nat -> nat) (it : nat) : option nat :=
-  match m with Mono => Some it | Threaded n => Some (it + eff_lag n (lag it)) end.
+(* the iteration whose io_write_next sees the report of a write queued at iteration `it` (lagv = the schedule of that writer) *)
+Definition report_due (m : iomode) (lagv it : nat) : option nat :=
+  match m with Mono => Some it | Threaded n => Some (it + eff_lag n lagv) end.
 Definition is_due (it : nat) (w : wrep) : bool := match wr_due w with Some d => (d <=? it)%nat | None => false end.
 Definition sum_eio (l : list wrep) : nat := fold_right (fun w s => (wr_eio w + s)%nat) 0%nat l.
 Definition sum_err (l : list wrep) : nat := fold_right (fun w s => (wr_err w + s)%nat) 0%nat l.
@@ -58,11 +59,14 @@ Definition rep_nonzero (w : wrep) : bool := negb ((wr_eio w + wr_err w =? 0)%nat
 Definition write_levels (par : parity) (pos : nat) (v : list bid) (wl : nat -> wres) : parity :=
   map (fun llv : nat * list penc => match wl (fst llv) with WOk => set_ext PNone pos (PEnc v) (snd llv) | _ => snd llv end)
       (combine (seq 0 (length par)) par).
-Definition count_levels (k : wres -> bool) (wl : nat -> wres) (nl : nat) : nat :=
-  length (filter (fun l => k (wl l)) (seq 0 nl)).
+(* one report per failing level: every level has its own writer thread, which reports on its own schedule `lag pos l` *)
+Definition level_reports (m : iomode) (lag : nat -> nat -> nat) (it pos : nat) (wl : nat -> wres) (nl : nat) : list wrep :=
+  flat_map (fun l => match wl l with
+                     | WOk => []
+                     | WEio => [mkWR (report_due m (lag pos l) it) 1 0]
+                     | WErr => [mkWR (report_due m (lag pos l) it) 0 1]
+                     end) (seq 0 nl).
 
-(* w_iters = iterations completed (sync.c:1289 `state->need_write = 1` is reached once per completed iteration: when it is 0
-   and nothing else asked for a save, the state is NOT written at exit) *)
 (* sync.c `end:` after the repair 1304269: io_stop, then the counters filled since the last io_write_next are drained *)
 Definition flush_counts (q : list wrep) (ne ni : nat) : nat * nat :=
   ((if (0 <? sum_err q)%nat then S ne else ne), (if (0 <? sum_eio q)%nat then S ni else ni)).
@@ -76,10 +80,10 @@ Section SyncW.
   Variable bs : N.
   Variable nlev : nat.
 
-  (* wf pos l = outcome of the pwrite of level l for stripe pos;  it = number of stripes processed so far (the loop
-     iteration);  q = reports not yet seen by the caller;  nfail = stripes with at least one failed pwrite so far *)
+  (* wf pos l = outcome of the pwrite of level l for stripe pos;  lag pos l = schedule of that write's report;  it = number of
+     stripes processed so far (the loop iteration);  q = reports not yet seen by the caller;  nfail = failed pwrites so far *)
   Fixpoint sync_loop_w (o : sopts) (now : N) (fs : list (option fsdisk)) (faults : nat -> list (option rd))
-           (wf : nat -> nat -> wres) (m : iomode) (lag : nat -> nat)
+           (wf : nat -> nat -> wres) (m : iomode) (lag : nat -> nat -> nat)
            (stripes : list nat) (stop : option nat) (it : nat) (q : list wrep) (nfail : nat)
            (c : content) (par : parity) (ne ns ni : nat) : wrun :=
     match stripes with
@@ -96,11 +100,9 @@ Section SyncW.
             (* the stripe's blocks are handed to the writers (threaded: queued, executed at the latest when io_stop
                drains; single-thread: written now) and their report is filed for the iteration that will see it ... *)
             let par' := match so_write r with Some v => write_levels par pos v (wf pos) | None => par end in
-            let neio := match so_write r with Some _ => count_levels w_is_eio (wf pos) (length par) | None => 0%nat end in
-            let nerr := match so_write r with Some _ => count_levels w_is_err (wf pos) (length par) | None => 0%nat end in
-            let failed := negb ((neio + nerr =? 0)%nat) in
-            let qa := if failed then q ++ [mkWR (report_due m lag it) neio nerr] else q in
-            let nfail' := if failed then S nfail else nfail in
+            let reps := match so_write r with Some _ => level_reports m lag it pos (wf pos) (length par) | None => [] end in
+            let qa := q ++ reps in
+            let nfail' := (nfail + length reps)%nat in
             (* ... io_write_next drains the counters filled so far: in threaded mode those of earlier stripes only
                (a report is due at it + lag >= it + 1), in single-thread mode exactly those of this stripe *)
             let seen := filter (is_due it) qa in
